@@ -23,58 +23,85 @@ Section OpInd.
 End OpInd.
 
 (* ------------------------------------------------------------------ unfolding the semantics *)
-Lemma run_eq b : forall e,
-  (fix run (b : list op) (e : env) {struct b} : list event :=
+Lemma run_eq b : forall e h,
+  (fix run (b : list op) (e : env) (h : heap) {struct b} : list event :=
      match b with
      | [] => []
-     | o :: b' => let r := exec_op o e in snd r ++ run b' (fst r)
-     end) b e = trace b e.
+     | o :: b' => let r := exec_op o e h in snd r ++ run b' (fst r) (hpush (snd r) h)
+     end) b e h = trace b e h.
 Proof.
-  induction b as [|o b IH]; intros e; [reflexivity|].
+  induction b as [|o b IH]; intros e h; [reflexivity|].
   unfold trace in *. cbn [exec_block snd fst]. rewrite IH. reflexivity.
 Qed.
 
-Lemma exec_For iv lb ub st body e :
-  exec_op (For iv lb ub st body) e =
-  (e, flat_map (fun k => trace body (upd e iv (VInt (as_int (e lb) + k * as_int (e st)))))
-               (zrange (trip (as_int (e lb)) (as_int (e ub)) (as_int (e st))))).
-Proof. cbn [exec_op]. f_equal. apply flat_map_ext. intros k. apply run_eq. Qed.
+Lemma iter_hist_ext_in f g ks : (forall k, In k ks -> forall h, f k h = g k h) -> forall h, iter_hist f ks h = iter_hist g ks h.
+Proof.
+  induction ks as [|k ks IH]; intros H h; [reflexivity|]. cbn [iter_hist].
+  rewrite (H k) by (left; reflexivity). f_equal. apply IH. intros k' Hk'. apply H. right; exact Hk'.
+Qed.
+Lemma iter_hist_ext f g ks : (forall k h, f k h = g k h) -> forall h, iter_hist f ks h = iter_hist g ks h.
+Proof. intros H. apply iter_hist_ext_in. intros k _ h. apply H. Qed.
 
-Lemma trace_nil e : trace [] e = [].
+Lemma hpush_app t1 t2 h : hpush (t1 ++ t2) h = hpush t2 (hpush t1 h).
+Proof. unfold hpush. apply fold_left_app. Qed.
+Lemma hpush_nil h : hpush [] h = h.
 Proof. reflexivity. Qed.
-Lemma trace_cons o b e : trace (o :: b) e = snd (exec_op o e) ++ trace b (fst (exec_op o e)).
-Proof. reflexivity. Qed.
-Lemma env_cons o b e : fst (exec_block (o :: b) e) = fst (exec_block b (fst (exec_op o e))).
-Proof. reflexivity. Qed.
-Lemma trace_app b1 b2 e : trace (b1 ++ b2) e = trace b1 e ++ trace b2 (fst (exec_block b1 e)).
+
+Lemma iter_hist_app f l1 l2 : forall h,
+  iter_hist f (l1 ++ l2) h = iter_hist f l1 h ++ iter_hist f l2 (hpush (iter_hist f l1 h) h).
 Proof.
-  revert e; induction b1 as [|o b1 IH]; intros e; [reflexivity|].
-  rewrite <- app_comm_cons, !trace_cons, env_cons, IH, app_assoc. reflexivity.
+  induction l1 as [|k l1 IH]; intros h; [reflexivity|].
+  cbn [app iter_hist]. rewrite IH, hpush_app, app_assoc. reflexivity.
 Qed.
-Lemma env_app b1 b2 e : fst (exec_block (b1 ++ b2) e) = fst (exec_block b2 (fst (exec_block b1 e))).
+Lemma iter_hist_map f (g : Z -> Z) l : forall h, iter_hist f (map g l) h = iter_hist (fun x => f (g x)) l h.
+Proof. induction l as [|x l IH]; intros h; [reflexivity|]. cbn [map iter_hist]. rewrite IH. reflexivity. Qed.
+Lemma iter_hist_flat_map f (g : Z -> list Z) l : forall h,
+  iter_hist f (flat_map g l) h = iter_hist (fun i h => iter_hist f (g i) h) l h.
 Proof.
-  revert e; induction b1 as [|o b1 IH]; intros e; [reflexivity|].
-  rewrite <- app_comm_cons, !env_cons, IH. reflexivity.
+  induction l as [|x l IH]; intros h; [reflexivity|]. cbn [flat_map iter_hist]. rewrite iter_hist_app, IH. reflexivity.
 Qed.
-Lemma exec_Def d p e : exec_op (Def d p) e = (upd e d (eval_pexpr e p), []).
+Lemma iter_hist_silent f ks : (forall k h, f k h = []) -> forall h, iter_hist f ks h = [].
+Proof. intros H. induction ks as [|k ks IH]; intros h; [reflexivity|]. cbn [iter_hist]. rewrite H. cbn. apply IH. Qed.
+
+Lemma exec_For iv lb ub st body e h :
+  exec_op (For iv lb ub st body) e h =
+  (e, iter_hist (fun k h => trace body (upd e iv (VInt (as_int (e lb) + k * as_int (e st)))) h)
+                (zrange (trip (as_int (e lb)) (as_int (e ub)) (as_int (e st)))) h).
+Proof. cbn [exec_op]. f_equal. apply iter_hist_ext. intros k h'. apply run_eq. Qed.
+
+Lemma trace_nil e h : trace [] e h = [].
 Proof. reflexivity. Qed.
-Lemma env_For iv lb ub st body e : fst (exec_op (For iv lb ub st body) e) = e.
+Lemma trace_cons o b e h :
+  trace (o :: b) e h = snd (exec_op o e h) ++ trace b (fst (exec_op o e h)) (hpush (snd (exec_op o e h)) h).
+Proof. reflexivity. Qed.
+Lemma env_cons o b e h :
+  fst (exec_block (o :: b) e h) = fst (exec_block b (fst (exec_op o e h)) (hpush (snd (exec_op o e h)) h)).
+Proof. reflexivity. Qed.
+Lemma trace_app b1 b2 : forall e h,
+  trace (b1 ++ b2) e h = trace b1 e h ++ trace b2 (fst (exec_block b1 e h)) (hpush (trace b1 e h) h).
+Proof.
+  induction b1 as [|o b1 IH]; intros e h; [reflexivity|].
+  rewrite <- app_comm_cons, !trace_cons, env_cons, IH, hpush_app, app_assoc. reflexivity.
+Qed.
+Lemma env_app b1 b2 : forall e h,
+  fst (exec_block (b1 ++ b2) e h) = fst (exec_block b2 (fst (exec_block b1 e h)) (hpush (trace b1 e h) h)).
+Proof.
+  induction b1 as [|o b1 IH]; intros e h; [reflexivity|].
+  rewrite <- app_comm_cons, !env_cons, IH, trace_cons, hpush_app. reflexivity.
+Qed.
+Lemma exec_Def d p e h : exec_op (Def d p) e h = (upd e d (eval_def d e h p), []).
+Proof. reflexivity. Qed.
+Lemma env_For iv lb ub st body e h : fst (exec_op (For iv lb ub st body) e h) = e.
 Proof. rewrite exec_For. reflexivity. Qed.
-Lemma env_Def d p e : fst (exec_op (Def d p) e) = upd e d (eval_pexpr e p).
+Lemma env_Def d p e h : fst (exec_op (Def d p) e h) = upd e d (eval_def d e h p).
 Proof. reflexivity. Qed.
-Lemma trace_Def d p b e : trace (Def d p :: b) e = trace b (upd e d (eval_pexpr e p)).
+Lemma trace_Def d p b e h : trace (Def d p :: b) e h = trace b (upd e d (eval_def d e h p)) h.
 Proof. reflexivity. Qed.
 
 Lemma upd_same e x v : upd e x v x = v.
 Proof. unfold upd. rewrite Nat.eqb_refl. reflexivity. Qed.
 Lemma upd_other e x v y : y <> x -> upd e x v y = e y.
 Proof. intros H. unfold upd. destruct (Nat.eqb y x) eqn:E; [apply Nat.eqb_eq in E; contradiction|reflexivity]. Qed.
-
-Lemma flat_map_nil {A B} (f : A -> list B) l : (forall x, In x l -> f x = []) -> flat_map f l = [].
-Proof.
-  induction l as [|x l IH]; intros H; [reflexivity|]. cbn. rewrite H by (left; reflexivity).
-  apply IH. intros y Hy. apply H. right; exact Hy.
-Qed.
 
 Lemma NoDup_app_l {A} (l1 l2 : list A) : NoDup (l1 ++ l2) -> NoDup l1.
 Proof.
@@ -120,10 +147,10 @@ Proof.
   intros v Hv. apply Hu. apply in_flat_map. exists d. split; assumption.
 Qed.
 
-Lemma eval_pexpr_agree F e1 e2 p :
-  agree F e1 e2 -> (forall v, In v (uses_p p) -> ~ F v) -> eval_pexpr e1 p = eval_pexpr e2 p.
+Lemma eval_pexpr_agree F e1 e2 h p :
+  agree F e1 e2 -> (forall v, In v (uses_p p) -> ~ F v) -> eval_pexpr e1 h p = eval_pexpr e2 h p.
 Proof.
-  intros H Hu. destruct p as [z|k a b|rs|s i|sz|s sz]; cbn [eval_pexpr].
+  intros H Hu. destruct p as [z|k a b|rs|s i|sz|s sz|m ix]; cbn [eval_pexpr].
   - reflexivity.
   - rewrite (H a), (H b); [reflexivity| |]; apply Hu; cbn; auto.
   - f_equal. f_equal. apply map_ext_in. intros l Hl. unfold eval_lin. f_equal. f_equal.
@@ -131,31 +158,46 @@ Proof.
     apply in_flat_map. exists l. split; [exact Hl|]. apply in_map. exact Hcv.
   - rewrite (H s), (H i); [reflexivity| |]; apply Hu; cbn; auto.
   - f_equal. apply (eval_dims_agree F); assumption.
-  - f_equal. apply (eval_dims_agree F); [assumption|]. intros v Hv. apply Hu. cbn. right; exact Hv.
+  - rewrite (H s) by (apply Hu; cbn; auto). f_equal. apply (eval_dims_agree F); [assumption|].
+    intros v Hv. apply Hu. cbn. right; exact Hv.
+  - rewrite (H m) by (apply Hu; cbn; auto). f_equal. apply map_ext_in. intros x Hx.
+    rewrite H; [reflexivity|]. apply Hu. cbn. right; exact Hx.
 Qed.
 
-Definition op_agree (o : op) := forall F e1 e2,
-  agree F e1 e2 -> (forall v, In v (vars_op o) -> ~ F v) ->
-  snd (exec_op o e1) = snd (exec_op o e2) /\ agree F (fst (exec_op o e1)) (fst (exec_op o e2)).
-
-Lemma block_agree_of_ops b : Forall op_agree b -> forall F e1 e2,
-  agree F e1 e2 -> (forall v, In v (vars_of b) -> ~ F v) ->
-  trace b e1 = trace b e2 /\ agree F (fst (exec_block b e1)) (fst (exec_block b e2)).
+Lemma eval_def_agree F d e1 e2 h p :
+  agree F e1 e2 -> (forall v, In v (uses_p p) -> ~ F v) -> eval_def d e1 h p = eval_def d e2 h p.
 Proof.
-  induction 1 as [|o b Ho _ IH]; intros F e1 e2 Ha Hv.
+  intros H Hu. destruct p; try (apply (eval_pexpr_agree F); assumption).
+  cbn [eval_def]. f_equal. apply (eval_dims_agree F); assumption.
+Qed.
+
+(* expressions that do not read memory do not depend on the heap *)
+Lemma eval_pexpr_heap e h1 h2 p : (forall m ix, p <> PLoad m ix) -> eval_pexpr e h1 p = eval_pexpr e h2 p.
+Proof. intros H. destruct p; try reflexivity. exfalso. eapply H. reflexivity. Qed.
+
+Definition op_agree (o : op) := forall F e1 e2 h,
+  agree F e1 e2 -> (forall v, In v (vars_op o) -> ~ F v) ->
+  snd (exec_op o e1 h) = snd (exec_op o e2 h) /\ agree F (fst (exec_op o e1 h)) (fst (exec_op o e2 h)).
+
+Lemma block_agree_of_ops b : Forall op_agree b -> forall F e1 e2 h,
+  agree F e1 e2 -> (forall v, In v (vars_of b) -> ~ F v) ->
+  trace b e1 h = trace b e2 h /\ agree F (fst (exec_block b e1 h)) (fst (exec_block b e2 h)).
+Proof.
+  induction 1 as [|o b Ho _ IH]; intros F e1 e2 h Ha Hv.
   - split; [reflexivity|exact Ha].
-  - destruct (Ho F e1 e2 Ha) as [Ht Ha'].
+  - destruct (Ho F e1 e2 h Ha) as [Ht Ha'].
     { intros v Hin. apply Hv. unfold vars_of. cbn. apply in_or_app. left; exact Hin. }
-    destruct (IH F _ _ Ha') as [Ht2 Ha2].
+    rewrite !trace_cons, !env_cons, Ht.
+    destruct (IH F _ _ (hpush (snd (exec_op o e2 h)) h) Ha') as [Ht2 Ha2].
     { intros v Hin. apply Hv. unfold vars_of. cbn. apply in_or_app. right; exact Hin. }
-    rewrite !trace_cons, !env_cons, Ht, Ht2. split; [reflexivity|exact Ha2].
+    rewrite Ht2. split; [reflexivity|exact Ha2].
 Qed.
 
 Lemma exec_op_agree o : op_agree o.
 Proof.
-  induction o as [d p|i a|iv lb ub st body IH] using op_ind'; intros F e1 e2 Ha Hv.
+  induction o as [d p|i a|iv lb ub st body IH] using op_ind'; intros F e1 e2 h Ha Hv.
   - cbn [exec_op fst snd]. split; [reflexivity|].
-    rewrite (eval_pexpr_agree F e1 e2 p Ha) by (intros v Hin; apply Hv; cbn; right; exact Hin).
+    rewrite (eval_def_agree F d e1 e2 h p Ha) by (intros v Hin; apply Hv; cbn; right; exact Hin).
     apply agree_upd. exact Ha.
   - cbn [exec_op fst snd]. split; [|exact Ha]. f_equal. f_equal. apply map_ext_in. intros v Hin.
     apply Ha. apply Hv. exact Hin.
@@ -163,18 +205,18 @@ Proof.
     assert (Hlb : e1 lb = e2 lb) by (apply Ha, Hv; cbn; auto).
     assert (Hub : e1 ub = e2 ub) by (apply Ha, Hv; cbn; auto).
     assert (Hst : e1 st = e2 st) by (apply Ha, Hv; cbn; auto).
-    rewrite Hlb, Hub, Hst. apply flat_map_ext. intros k.
+    rewrite Hlb, Hub, Hst. apply iter_hist_ext. intros k h'.
     apply (block_agree_of_ops body IH F); [apply agree_upd; exact Ha|].
     intros v Hin. apply Hv. cbn. do 4 right. exact Hin.
 Qed.
 
-Lemma exec_block_agree b F e1 e2 :
+Lemma exec_block_agree b F e1 e2 h :
   agree F e1 e2 -> (forall v, In v (vars_of b) -> ~ F v) ->
-  trace b e1 = trace b e2 /\ agree F (fst (exec_block b e1)) (fst (exec_block b e2)).
+  trace b e1 h = trace b e2 h /\ agree F (fst (exec_block b e1 h)) (fst (exec_block b e2 h)).
 Proof. apply block_agree_of_ops. apply Forall_forall. intros o _. apply exec_op_agree. Qed.
 
 (* ------------------------------------------------------------------ frame *)
-Lemma exec_op_frame o e v : ~ In v (map fst (defs_top [o])) -> fst (exec_op o e) v = e v.
+Lemma exec_op_frame o e h v : ~ In v (map fst (defs_top [o])) -> fst (exec_op o e h) v = e v.
 Proof.
   destruct o as [d p|i a|iv lb ub st body]; intros H.
   - cbn in *. apply upd_other. intros ->. apply H. left; reflexivity.
@@ -190,9 +232,9 @@ Proof.
   reflexivity.
 Qed.
 
-Lemma exec_block_frame b : forall e v, ~ In v (map fst (defs_top b)) -> fst (exec_block b e) v = e v.
+Lemma exec_block_frame b : forall e h v, ~ In v (map fst (defs_top b)) -> fst (exec_block b e h) v = e v.
 Proof.
-  induction b as [|o b IH]; intros e v H; [reflexivity|].
+  induction b as [|o b IH]; intros e h v H; [reflexivity|].
   rewrite env_cons. rewrite defs_top_cons, map_app in H.
   rewrite IH by (intros Hin; apply H; apply in_or_app; right; exact Hin).
   apply exec_op_frame. intros Hin; apply H; apply in_or_app; left; exact Hin.
@@ -207,30 +249,47 @@ Proof.
 Qed.
 
 (* ------------------------------------------------------------------ side-effect-free ops are silent *)
-Lemma effect_free_silent o : effect_free o = true -> forall e, snd (exec_op o e) = [].
+Lemma effect_free_silent o : effect_free o = true -> forall e h, snd (exec_op o e h) = [].
 Proof.
-  induction o as [d p|i a|iv lb ub st body IH] using op_ind'; intros H e.
+  induction o as [d p|i a|iv lb ub st body IH] using op_ind'; intros H e h.
   - reflexivity.
   - discriminate.
-  - rewrite exec_For. cbn [snd]. apply flat_map_nil. intros k _.
-    cbn [effect_free] in H. generalize (upd e iv (VInt (as_int (e lb) + k * as_int (e st)))).
-    induction IH as [|o b Ho _ IHb]; intros e'; [reflexivity|].
+  - rewrite exec_For. cbn [snd]. apply iter_hist_silent. intros k h'.
+    cbn [effect_free] in H. generalize (upd e iv (VInt (as_int (e lb) + k * as_int (e st)))). revert h'.
+    induction IH as [|o b Ho _ IHb]; intros h' e'; [reflexivity|].
     cbn [forallb] in H. apply andb_true_iff in H as [H1 H2].
     rewrite trace_cons, (Ho H1), IHb by exact H2. reflexivity.
 Qed.
 
-Lemma effect_free_block_silent b : forallb effect_free b = true -> forall e, trace b e = [].
+Lemma effect_free_block_silent b : forallb effect_free b = true -> forall e h, trace b e h = [].
 Proof.
-  induction b as [|o b IH]; intros H e; [reflexivity|].
+  induction b as [|o b IH]; intros H e h; [reflexivity|].
   cbn [forallb] in H. apply andb_true_iff in H as [H1 H2].
   rewrite trace_cons, (effect_free_silent o H1), IH by exact H2. reflexivity.
+Qed.
+
+(* ... and compute the same environment whatever the heap (they contain no load) *)
+Lemma effect_free_env_heap b : forallb effect_free b = true -> forall e h1 h2,
+  fst (exec_block b e h1) = fst (exec_block b e h2).
+Proof.
+  induction b as [|o b IH]; intros H e h1 h2; [reflexivity|].
+  cbn [forallb] in H. apply andb_true_iff in H as [H1 H2].
+  rewrite !env_cons. rewrite !(effect_free_silent o H1).
+  assert (Ho : fst (exec_op o e h1) = fst (exec_op o e h2)).
+  { destruct o as [d p|i a|iv lb ub st body].
+    - cbn [exec_op fst]. f_equal. cbn [effect_free] in H1.
+      destruct p; cbn [eval_def]; try reflexivity; try discriminate.
+    - reflexivity.
+    - rewrite !env_For. reflexivity. }
+  rewrite Ho. apply IH. exact H2.
 Qed.
 
 (* ------------------------------------------------------------------ scopes *)
 (* the constants a rule reads from its scope have those values in the environment *)
 Definition scope_ok (Sc : scope) (e : env) := forall v z, cst_of Sc v = Some z -> e v = VInt z.
-(* every definition of the scope has been evaluated in (an environment agreeing with) e *)
-Definition defs_ok (Sc : scope) (e : env) := forall v p, lookup Sc v = Some p -> e v = eval_pexpr e p.
+(* every heap-independent definition of the scope holds its defining equation in e *)
+Definition defs_ok (Sc : scope) (e : env) :=
+  forall v p, lookup Sc v = Some p -> pure_p p = true -> e v = eval_pexpr e [] p.
 
 Lemma lookup_app S1 S2 v :
   lookup (S1 ++ S2) v = match lookup S1 v with Some p => Some p | None => lookup S2 v end.
@@ -254,14 +313,14 @@ Qed.
 Lemma defs_ok_scope_ok Sc e : defs_ok Sc e -> scope_ok Sc e.
 Proof.
   intros H v z Hc. unfold cst_of in Hc. destruct (lookup Sc v) as [p|] eqn:E; [|discriminate].
-  destruct p; try discriminate. inversion Hc; subst. rewrite (H _ _ E). reflexivity.
+  destruct p; try discriminate. inversion Hc; subst. rewrite (H _ _ E eq_refl). reflexivity.
 Qed.
 
 (* constants defined at the top level of a block hold after the block *)
-Lemma block_consts_hold b : NoDup (map fst (defs_top b)) -> forall e v z,
-  lookup (defs_top b) v = Some (PConst z) -> fst (exec_block b e) v = VInt z.
+Lemma block_consts_hold b : NoDup (map fst (defs_top b)) -> forall e h v z,
+  lookup (defs_top b) v = Some (PConst z) -> fst (exec_block b e h) v = VInt z.
 Proof.
-  induction b as [|o b IH]; intros Hnd e v z Hl; [discriminate|].
+  induction b as [|o b IH]; intros Hnd e h v z Hl; [discriminate|].
   rewrite env_cons. destruct o as [d p|i a|iv lb ub st body].
   - cbn [defs_top map fst] in Hnd. inversion Hnd as [|? ? Hnotin Hnd']; subst.
     cbn [defs_top lookup] in Hl. destruct (Nat.eqb d v) eqn:E.
@@ -272,8 +331,8 @@ Proof.
   - cbn [defs_top] in *. apply IH; assumption.
 Qed.
 
-Lemma scope_ok_after_block b Sc e :
-  NoDup (map fst (defs_top b)) -> scope_ok Sc e -> scope_ok (defs_top b ++ Sc) (fst (exec_block b e)).
+Lemma scope_ok_after_block b Sc e h :
+  NoDup (map fst (defs_top b)) -> scope_ok Sc e -> scope_ok (defs_top b ++ Sc) (fst (exec_block b e h)).
 Proof.
   intros Hnd Hs v z Hc. unfold cst_of in Hc. rewrite lookup_app in Hc.
   destruct (lookup (defs_top b) v) as [p|] eqn:E.
@@ -296,12 +355,12 @@ Proof. intros H. unfold trip, ceil_ub. destruct (s <=? 0) eqn:E; [lia|]. f_equal
 Definition fresh_from (fresh : var) : var -> Prop := fun v => (fresh <= v)%nat.
 
 (* ------------------------------------------------------------------ ChangeForStep *)
-Theorem change_step_trace Sc fresh o ops e :
+Theorem change_step_trace Sc fresh o ops e h :
   change_step Sc fresh o = Some ops ->
   scope_ok Sc e ->
   (forall v, In v (vars_op o) -> (v < fresh)%nat) ->
-  trace ops e = snd (exec_op o e) /\
-  agree (fresh_from fresh) (fst (exec_block ops e)) (fst (exec_op o e)).
+  trace ops e h = snd (exec_op o e h) /\
+  agree (fresh_from fresh) (fst (exec_block ops e h)) (fst (exec_op o e h)).
 Proof.
   intros Hr Hs Hf. unfold change_step, change_step_with in Hr.
   destruct o as [| |iv lb ub st body]; try discriminate.
@@ -321,7 +380,7 @@ Proof.
   set (e1 := upd e fresh (VInt 1)).
   set (e2 := upd e1 (S fresh) (VInt (ceil_ub u s))).
   rewrite exec_For. rewrite Hlb, Hub, Hst. cbn [as_int snd fst].
-  rewrite !trace_Def. cbn [eval_pexpr]. fold e1. fold e2.
+  rewrite !trace_Def. cbn [eval_def eval_pexpr]. fold e1. fold e2.
   rewrite trace_cons, exec_For. cbn [snd fst]. rewrite trace_nil, app_nil_r.
   assert (H2lb : e2 lb = VInt 0) by (unfold e2, e1; rewrite !upd_other by lia; exact Hlb).
   assert (H2st : e2 st = VInt s) by (unfold e2, e1; rewrite !upd_other by lia; exact Hst).
@@ -330,7 +389,7 @@ Proof.
   rewrite H2lb, H2ub, H2f. cbn [as_int].
   rewrite trip_unit, trip_ceil by lia.
   split.
-  - apply flat_map_ext. intros k. rewrite trace_Def. cbn [eval_pexpr].
+  - apply iter_hist_ext. intros k h'. rewrite trace_Def. cbn [eval_def eval_pexpr].
     rewrite upd_same. rewrite (upd_other _ (S (S fresh)) _ st) by lia. rewrite H2st. cbn [as_int eval_bin].
     replace (0 + k * 1) with k by lia. replace (0 + k * s) with (s * k) by lia.
     apply (exec_block_agree body (fresh_from fresh)).
@@ -339,7 +398,7 @@ Proof.
       apply agree_upd_l; [|unfold fresh_from; lia]. apply agree_refl.
     + intros v Hin. unfold fresh_from. assert ((v < fresh)%nat); [|lia].
       apply Hf. cbn. do 4 right. exact Hin.
-  - rewrite !env_cons, env_For, !env_Def. cbn [fst exec_block eval_pexpr].
+  - rewrite !env_cons, env_For, !env_Def. cbn [fst exec_block eval_def eval_pexpr].
     apply agree_upd_l; [|unfold fresh_from; lia].
     apply agree_upd_l; [|unfold fresh_from; lia]. apply agree_refl.
 Qed.
@@ -352,7 +411,7 @@ Definition c17_step_witness : list op :=
 Theorem change_step_refuted_floor :
   exists b b',
     apply_at (fun Sc o => change_step_floor Sc (S (maxvar b)) o) [3%nat] [] b = Some b' /\
-    trace b env0 <> trace b' env0.
+    trace b env0 [] <> trace b' env0 [].
 Proof.
   exists c17_step_witness. eexists. split; [vm_compute; reflexivity|]. vm_compute. discriminate.
 Qed.
@@ -369,15 +428,15 @@ Proof.
   rewrite Z.add_comm, Z.mod_add by lia. apply Z.mod_small. lia.
 Qed.
 
-Theorem merge_trace Sc fresh j o ops e :
+Theorem merge_trace Sc fresh j o ops e h :
   merge_loops Sc fresh j o = Some ops ->
   scope_ok Sc e ->
   (forall v, In v (vars_op o) -> (v < fresh)%nat) ->
   (* SSA side conditions on the parent body (implied by [wf_prog]) *)
   (forall iv lb ub st body, o = For iv lb ub st body ->
      NoDup (map fst (defs_top body)) /\ ~ In iv (map fst (defs_top body)) /\ ~ In iv (map fst Sc)) ->
-  trace ops e = snd (exec_op o e) /\
-  agree (fresh_from fresh) (fst (exec_block ops e)) (fst (exec_op o e)).
+  trace ops e h = snd (exec_op o e h) /\
+  agree (fresh_from fresh) (fst (exec_block ops e h)) (fst (exec_op o e h)).
 Proof.
   intros Hr Hs Hf Hssa. unfold merge_loops, merge_loops_with in Hr.
   destruct o as [| |ivp lbp ubp stp pbody]; try discriminate.
@@ -416,53 +475,53 @@ Proof.
   (* the original loop *)
   rewrite exec_For, Hlbp, Hubp, Hstp. cbn [as_int snd fst]. rewrite trip_unit.
   (* the rewritten program *)
-  rewrite trace_Def. cbn [eval_pexpr]. set (e1 := upd e fresh (VInt (u * up))).
+  rewrite trace_Def. cbn [eval_def eval_pexpr]. set (e1 := upd e fresh (VInt (u * up))).
   rewrite trace_cons, exec_For. cbn [snd fst]. rewrite trace_nil, app_nil_r.
   assert (H1lbp : e1 lbp = VInt 0) by (unfold e1; rewrite upd_other by lia; exact Hlbp).
   assert (H1stp : e1 stp = VInt 1) by (unfold e1; rewrite upd_other by lia; exact Hstp).
   assert (H1f : e1 fresh = VInt (u * up)) by (unfold e1; apply upd_same).
   rewrite H1lbp, H1stp, H1f. cbn [as_int]. rewrite trip_unit.
   split.
-  2:{ rewrite !env_cons, env_For, env_Def. cbn [fst exec_block eval_pexpr].
+  2:{ rewrite !env_cons, env_For, env_Def. cbn [fst exec_block eval_def eval_pexpr].
       apply agree_upd_l; [apply agree_refl|unfold fresh_from; lia]. }
   rewrite (Z.mul_comm u up), (zrange_mul up u) by lia.
-  rewrite flat_map_flat_map. apply flat_map_ext_in. intros i Hi. apply in_zrange in Hi.
-  rewrite flat_map_map.
+  rewrite iter_hist_flat_map. apply iter_hist_ext_in. intros i Hi h1. apply in_zrange in Hi.
+  rewrite iter_hist_map.
   (* original iteration i *)
   replace (0 + i * 1) with i by lia.
   set (ei := upd e ivp (VInt i)).
   rewrite trace_app, trace_cons, exec_For. cbn [snd fst].
-  rewrite (effect_free_block_silent pre Gpre), (effect_free_block_silent post Gpost), app_nil_l, app_nil_r.
-  set (epre := fst (exec_block pre ei)).
+  rewrite (effect_free_block_silent pre Gpre), (effect_free_block_silent post Gpost), app_nil_l, app_nil_r, hpush_nil.
+  set (epre := fst (exec_block pre ei h1)).
   assert (Hsi : scope_ok Sc ei).
   { intros v z Hc. unfold ei. rewrite upd_other; [apply Hs; exact Hc|].
     intros ->. apply Hivp2. unfold cst_of in Hc. destruct (lookup Sc ivp) eqn:E; [|discriminate].
     eapply lookup_in; eassumption. }
-  pose proof (scope_ok_after_block pre Sc ei Hndpre Hsi) as Hspre. fold S' in Hspre. fold epre in Hspre.
+  pose proof (scope_ok_after_block pre Sc ei h1 Hndpre Hsi) as Hspre. fold S' in Hspre. fold epre in Hspre.
   rewrite (Hspre _ _ El), (Hspre _ _ Eu), (Hspre _ _ Es). cbn [as_int]. rewrite trip_unit.
-  apply flat_map_ext_in. intros y Hy. apply in_zrange in Hy.
+  apply iter_hist_ext_in. intros y Hy h2. apply in_zrange in Hy.
   replace (0 + y * 1) with y by lia. replace (0 + (i * u + y) * 1) with (i * u + y) by lia.
   (* rewritten iteration i*u+y *)
   set (c := S (S fresh)). set (k := S fresh).
   set (eK := upd e1 k (VInt (i * u + y))).
-  rewrite !trace_Def. cbn [eval_pexpr].
+  rewrite !trace_Def. cbn [eval_def eval_pexpr].
   set (ec := upd eK c (VInt u)).
   assert (Hck : ec k = VInt (i * u + y)).
   { unfold ec. rewrite upd_other by (unfold k, c; lia). unfold eK. apply upd_same. }
   assert (Hcc : ec c = VInt u) by (unfold ec; apply upd_same).
   rewrite Hck, Hcc. cbn [as_int eval_bin]. rewrite divu_mixed by lia.
   set (ea := upd ec ivp (VInt i)).
-  rewrite trace_app, (effect_free_block_silent pre Gpre), app_nil_l.
-  rewrite trace_Def. cbn [eval_pexpr].
-  set (epre' := fst (exec_block pre ea)).
+  rewrite trace_app, (effect_free_block_silent pre Gpre), app_nil_l, hpush_nil.
+  rewrite trace_Def. cbn [eval_def eval_pexpr].
+  set (epre' := fst (exec_block pre ea h2)).
   assert (Hagr0 : agree (fresh_from fresh) ea ei).
   { unfold ea, ei. apply agree_upd. unfold ec, eK, e1.
     apply agree_upd_l; [|unfold fresh_from, c; lia].
     apply agree_upd_l; [|unfold fresh_from, k; lia].
     apply agree_upd_l; [|unfold fresh_from; lia]. apply agree_refl. }
-  destruct (exec_block_agree pre (fresh_from fresh) ea ei Hagr0) as [_ Hagr1].
+  destruct (exec_block_agree pre (fresh_from fresh) ea ei h2 Hagr0) as [_ Hagr1].
   { intros v Hin. unfold fresh_from. specialize (Lpre v Hin). lia. }
-  fold epre' in Hagr1. fold epre in Hagr1.
+  fold epre' in Hagr1. rewrite (effect_free_env_heap pre Gpre ei h2 h1) in Hagr1. fold epre in Hagr1.
   assert (Hk' : epre' k = VInt (i * u + y)).
   { unfold epre'. rewrite exec_block_frame.
     - unfold ea. rewrite upd_other by (unfold k; lia). exact Hck.
@@ -488,7 +547,7 @@ Definition c17_merge_witness : list op :=
 Theorem merge_refuted_without_nest_check :
   exists b b',
     apply_at (fun Sc o => merge_loops_no_nest_check Sc (S (maxvar b)) 1 o) [4%nat] [] b = Some b' /\
-    trace b env0 <> trace b' env0 /\
+    trace b env0 [] <> trace b' env0 [] /\
     apply_at (fun Sc o => merge_loops Sc (S (maxvar b)) 1 o) [4%nat] [] b = None.
 Proof.
   exists c17_merge_witness. eexists. split; [vm_compute; reflexivity|]. split; [vm_compute; discriminate|reflexivity].
@@ -502,7 +561,7 @@ Definition c17_merge_neg_witness : list op :=
 Theorem merge_refuted_without_sign_check :
   exists b b',
     apply_at (fun Sc o => merge_loops_no_neg_check Sc (S (maxvar b)) 0 o) [4%nat] [] b = Some b' /\
-    trace b env0 <> trace b' env0 /\
+    trace b env0 [] <> trace b' env0 [] /\
     apply_at (fun Sc o => merge_loops Sc (S (maxvar b)) 0 o) [4%nat] [] b = None.
 Proof.
   exists c17_merge_neg_witness. eexists. split; [vm_compute; reflexivity|]. split; [vm_compute; discriminate|reflexivity].
@@ -528,17 +587,22 @@ Definition hoisted_name (j : nat) (o : op) : var -> Prop :=
   | _ => fun _ => False
   end.
 
-Theorem hoist_trace Sc j o ops e :
+(* a hoistable op (Pure arith / alloc) does not read the heap: a memref.load is not hoistable *)
+Lemma hoistable_heap d e h1 h2 p : hoistable_p p = true -> eval_def d e h1 p = eval_def d e h2 p.
+Proof. destruct p; cbn; try discriminate; reflexivity. Qed.
+
+Theorem hoist_trace Sc j o ops e h :
   hoist Sc j o = Some ops ->
   hoist_side j o ->
-  trace ops e = snd (exec_op o e) /\
-  agree (hoisted_name j o) (fst (exec_block ops e)) (fst (exec_op o e)).
+  trace ops e h = snd (exec_op o e h) /\
+  agree (hoisted_name j o) (fst (exec_block ops e h)) (fst (exec_op o e h)).
 Proof.
   intros Hr Hside. unfold hoist in Hr. unfold hoist_side in Hside. unfold hoisted_name.
   destruct o as [| |iv lb ub st body]; try discriminate.
   destruct (split_at j body) as [[[pre x] post]|] eqn:Esp; [|discriminate].
   destruct x as [d p| |]; try discriminate.
-  destruct (hoistable_p p && forallb (in_scope Sc) (uses_p p)); [|discriminate].
+  destruct (hoistable_p p && forallb (in_scope Sc) (uses_p p)) eqn:G; [|discriminate].
+  apply andb_true_iff in G as [Ghoist _].
   inversion Hr; subst ops; clear Hr.
   apply split_at_spec in Esp as [-> _].
   destruct Hside as [Hd Hu].
@@ -547,26 +611,27 @@ Proof.
   assert (Hdub : d <> ub) by (intros ->; apply Hd; cbn; auto).
   assert (Hdst : d <> st) by (intros ->; apply Hd; cbn; auto).
   assert (Hdpre : ~ In d (vars_of pre)) by (intros Hin; apply Hd; cbn; auto).
-  rewrite trace_Def. set (val := eval_pexpr e p). set (e1 := upd e d val).
+  rewrite trace_Def. set (val := eval_def d e h p). set (e1 := upd e d val).
   rewrite trace_cons, !exec_For. cbn [snd fst]. rewrite trace_nil, app_nil_r.
   unfold e1 at 1 2 3 4 5 6. rewrite !(upd_other e d val) by congruence.
   split.
   2:{ rewrite !env_cons, env_For, env_Def. cbn [fst exec_block].
       apply agree_upd_l; [apply agree_refl|reflexivity]. }
-  apply flat_map_ext. intros k.
+  apply iter_hist_ext. intros k h1.
   set (x := VInt (as_int (e lb) + k * as_int (e st))).
   rewrite !trace_app, trace_Def. fold e1.
   (* pre does not mention d *)
   assert (Hag0 : agree (eq d) (upd e1 iv x) (upd e iv x)).
   { apply agree_upd. unfold e1. apply agree_upd_l; [apply agree_refl|reflexivity]. }
-  destruct (exec_block_agree pre (eq d) _ _ Hag0) as [Htpre Hag1].
+  destruct (exec_block_agree pre (eq d) _ _ h1 Hag0) as [Htpre Hag1].
   { intros v Hin Heq. subst v. contradiction. }
   rewrite Htpre. f_equal.
-  set (ep1 := fst (exec_block pre (upd e1 iv x))) in *.
-  set (ep2 := fst (exec_block pre (upd e iv x))) in *.
+  set (ep1 := fst (exec_block pre (upd e1 iv x) h1)) in *.
+  set (ep2 := fst (exec_block pre (upd e iv x) h1)) in *.
+  set (h2 := hpush (trace pre (upd e iv x) h1) h1).
   (* the hoisted op evaluates to the same value inside the loop *)
-  assert (Hval : eval_pexpr ep2 p = val).
-  { unfold val. apply (eval_pexpr_agree (fun v => ~ In v (uses_p p))).
+  assert (Hval : eval_def d ep2 h2 p = val).
+  { unfold val. rewrite (hoistable_heap d ep2 h2 h p Ghoist). apply (eval_def_agree (fun v => ~ In v (uses_p p))).
     - intros v Hv. assert (Hin : In v (uses_p p)).
       { destruct (in_dec Nat.eq_dec v (uses_p p)) as [H|H]; [exact H|contradiction]. }
       destruct (Hu v Hin) as (H1 & H2 & H3).
@@ -604,22 +669,22 @@ Proof.
   induction fuel as [|fuel IH]; intros Sin Sout src idx r e Hr Hok; [discriminate|].
   cbn [resolve_dim] in Hr.
   destruct (lookup (Sin ++ Sout) src) as [p1|] eqn:Hl; [|inversion Hr; subst; reflexivity].
-  destruct p1 as [z|k a b|rs|s i|sz|s sizes]; try discriminate.
-  rewrite (Hok _ _ Hl). cbn [eval_pexpr shape_of].
+  destruct p1 as [z|k a b|rs|s i|sz|s sizes|lm lix]; try discriminate.
+  rewrite (Hok _ _ Hl eq_refl). cbn [eval_pexpr shape_of].
   destruct (nth_error sizes (Z.to_nat idx)) as [[z|v]|] eqn:En; [| |discriminate].
   - inversion Hr; subst. cbn [eval_repl_exact eval_repl]. rewrite (nth_map_default _ _ _ _ _ En). reflexivity.
   - rewrite (nth_map_default _ _ _ _ _ En). cbn [eval_dim].
     destruct (lookup Sin v) as [pv|] eqn:Ev.
-    + destruct pv as [z|k a b|rs|s' i|sz|s' sz]; try discriminate.
+    + destruct pv as [z|k a b|rs|s' i|sz|s' sz|lm lix]; try discriminate.
       * inversion Hr; subst. reflexivity.
       * destruct (first_const rs); [|discriminate]. inversion Hr; subst. reflexivity.
       * destruct (cst_of (Sin ++ Sout) i) as [iz|] eqn:Ei; [|discriminate].
         rewrite (IH _ _ _ _ _ e Hr Hok).
         assert (Hv : lookup (Sin ++ Sout) v = Some (PDim s' i)) by (rewrite lookup_app, Ev; reflexivity).
-        rewrite (Hok _ _ Hv). cbn [eval_pexpr as_int].
+        rewrite (Hok _ _ Hv eq_refl). cbn [eval_pexpr as_int].
         rewrite (defs_ok_scope_ok _ _ Hok _ _ Ei). reflexivity.
     + destruct (lookup Sout v) as [pv|] eqn:Ev2; [|discriminate].
-      destruct pv as [z|k a b|rs|s' i|sz|s' sz]; try discriminate.
+      destruct pv as [z|k a b|rs|s' i|sz|s' sz|lm lix]; try discriminate.
       * inversion Hr; subst. reflexivity.
       * destruct (first_const rs); [|discriminate]. inversion Hr; subst. reflexivity.
       * inversion Hr; subst. reflexivity.
@@ -653,9 +718,9 @@ Theorem move_dim_min_refuted :
     eval_repl e (RMin v c) <> nth (Z.to_nat idx) (shape_of (e src)) 0.
 Proof.
   exists [(3%nat, PSubview 0%nat [DDyn 2%nat]); (2%nat, PMin [(8, []); (10, [(-1, 1%nat)])])], [], 3%nat, 0, 2%nat, 8.
-  exists (env_of [(3%nat, VMem [2]); (2%nat, VInt 2); (1%nat, VInt 8); (0%nat, VMem [10])]).
+  exists (env_of [(3%nat, VMem 7 [2]); (2%nat, VInt 2); (1%nat, VInt 8); (0%nat, VMem 7 [10])]).
   split; [reflexivity|]. split.
-  - intros v p H. cbn in H.
+  - intros v p H _. cbn in H.
     destruct v as [|[|[|[|v]]]]; cbn in H; try discriminate; inversion H; subst; reflexivity.
   - vm_compute. discriminate.
 Qed.
@@ -681,44 +746,52 @@ Qed.
 Lemma eval_dim_sb d w e1 e2 x : srel d w e1 e2 -> eval_dim e1 (sb_dim d w x) = eval_dim e2 x.
 Proof. intros H. destruct x as [z|v]; cbn; [reflexivity|]. rewrite (sbv_rel _ _ _ _ _ H). reflexivity. Qed.
 
-Lemma eval_pexpr_sb d w e1 e2 p : srel d w e1 e2 -> eval_pexpr e1 (sb_p d w p) = eval_pexpr e2 p.
+Lemma eval_pexpr_sb d w e1 e2 h p : srel d w e1 e2 -> eval_pexpr e1 h (sb_p d w p) = eval_pexpr e2 h p.
 Proof.
-  intros H. destruct p as [z|k a b|rs|s i|sz|s sz]; cbn [eval_pexpr sb_p].
+  intros H. destruct p as [z|k a b|rs|s i|sz|s sz|lm lix]; cbn [eval_pexpr sb_p].
   - reflexivity.
   - rewrite !(sbv_rel _ _ _ _ _ H). reflexivity.
   - f_equal. f_equal. rewrite map_map. apply map_ext. intros l. unfold eval_lin. cbn [fst snd]. f_equal. f_equal.
     rewrite map_map. apply map_ext. intros cv. cbn [fst snd]. rewrite (sbv_rel _ _ _ _ _ H). reflexivity.
   - rewrite !(sbv_rel _ _ _ _ _ H). reflexivity.
   - f_equal. rewrite map_map. apply map_ext. intros x. apply eval_dim_sb. exact H.
-  - f_equal. rewrite map_map. apply map_ext. intros x. apply eval_dim_sb. exact H.
+  - rewrite (sbv_rel _ _ _ _ _ H). f_equal. rewrite map_map. apply map_ext. intros x. apply eval_dim_sb. exact H.
+  - rewrite (sbv_rel _ _ _ _ _ H). f_equal. rewrite map_map. apply map_ext. intros x. rewrite (sbv_rel _ _ _ _ _ H). reflexivity.
 Qed.
 
-Definition op_subst_ok (d w : var) (o : op) := forall e1 e2,
-  srel d w e1 e2 -> ~ In d (alldefs_op o) -> ~ In w (alldefs_op o) ->
-  snd (exec_op (subst_op d w o) e1) = snd (exec_op o e2) /\
-  srel d w (fst (exec_op (subst_op d w o) e1)) (fst (exec_op o e2)).
-
-Lemma block_subst_of_ops d w b : Forall (op_subst_ok d w) b -> forall e1 e2,
-  srel d w e1 e2 -> ~ In d (alldefs b) -> ~ In w (alldefs b) ->
-  trace (map (subst_op d w) b) e1 = trace b e2 /\
-  srel d w (fst (exec_block (map (subst_op d w) b) e1)) (fst (exec_block b e2)).
+Lemma eval_def_sb x d w e1 e2 h p : srel d w e1 e2 -> eval_def x e1 h (sb_p d w p) = eval_def x e2 h p.
 Proof.
-  induction 1 as [|o b Ho _ IH]; intros e1 e2 Hr Hd Hw; [split; [reflexivity|exact Hr]|].
+  intros H. destruct p; try (apply eval_pexpr_sb; exact H).
+  cbn [sb_p eval_def]. f_equal. rewrite map_map. apply map_ext. intros y. apply eval_dim_sb. exact H.
+Qed.
+
+Definition op_subst_ok (d w : var) (o : op) := forall e1 e2 h,
+  srel d w e1 e2 -> ~ In d (alldefs_op o) -> ~ In w (alldefs_op o) ->
+  snd (exec_op (subst_op d w o) e1 h) = snd (exec_op o e2 h) /\
+  srel d w (fst (exec_op (subst_op d w o) e1 h)) (fst (exec_op o e2 h)).
+
+Lemma block_subst_of_ops d w b : Forall (op_subst_ok d w) b -> forall e1 e2 h,
+  srel d w e1 e2 -> ~ In d (alldefs b) -> ~ In w (alldefs b) ->
+  trace (map (subst_op d w) b) e1 h = trace b e2 h /\
+  srel d w (fst (exec_block (map (subst_op d w) b) e1 h)) (fst (exec_block b e2 h)).
+Proof.
+  induction 1 as [|o b Ho _ IH]; intros e1 e2 h Hr Hd Hw; [split; [reflexivity|exact Hr]|].
   unfold alldefs in Hd, Hw. cbn [flat_map] in Hd, Hw. rewrite in_app_iff in Hd, Hw.
-  destruct (Ho e1 e2 Hr) as [Ht Hr']; [tauto|tauto|].
-  destruct (IH _ _ Hr') as [Ht2 Hr2]; [unfold alldefs; tauto|unfold alldefs; tauto|].
-  cbn [map]. rewrite !trace_cons, !env_cons, Ht, Ht2. split; [reflexivity|exact Hr2].
+  destruct (Ho e1 e2 h Hr) as [Ht Hr']; [tauto|tauto|].
+  cbn [map]. rewrite !trace_cons, !env_cons, Ht.
+  destruct (IH _ _ (hpush (snd (exec_op o e2 h)) h) Hr') as [Ht2 Hr2]; [unfold alldefs; tauto|unfold alldefs; tauto|].
+  rewrite Ht2. split; [reflexivity|exact Hr2].
 Qed.
 
 Lemma subst_op_ok d w o : op_subst_ok d w o.
 Proof.
-  induction o as [x p|i a|iv lb ub st body IH] using op_ind'; intros e1 e2 Hr Hd Hw.
+  induction o as [x p|i a|iv lb ub st body IH] using op_ind'; intros e1 e2 h Hr Hd Hw.
   - cbn [subst_op exec_op fst snd]. split; [reflexivity|].
-    rewrite (eval_pexpr_sb _ _ _ _ _ Hr). apply srel_upd; [exact Hr| |]; intros ->; [apply Hd|apply Hw]; left; reflexivity.
+    rewrite (eval_def_sb x _ _ _ _ h p Hr). apply srel_upd; [exact Hr| |]; intros ->; [apply Hd|apply Hw]; left; reflexivity.
   - cbn [subst_op exec_op fst snd]. split; [|exact Hr]. f_equal. f_equal. rewrite map_map. apply map_ext.
     intros u. apply sbv_rel. exact Hr.
   - cbn [subst_op]. rewrite !exec_For. cbn [fst snd]. split; [|exact Hr].
-    rewrite !(sbv_rel _ _ _ _ _ Hr). apply flat_map_ext. intros k.
+    rewrite !(sbv_rel _ _ _ _ _ Hr). apply iter_hist_ext. intros k h'.
     cbn [alldefs_op] in Hd, Hw.
     apply (block_subst_of_ops d w body IH).
     + apply srel_upd; [exact Hr| |]; intros ->; [apply Hd|apply Hw]; left; reflexivity.
@@ -726,10 +799,10 @@ Proof.
     + intros Hin. apply Hw. right. exact Hin.
 Qed.
 
-Lemma subst_block_ok d w b e1 e2 :
+Lemma subst_block_ok d w b e1 e2 h :
   srel d w e1 e2 -> ~ In d (alldefs b) -> ~ In w (alldefs b) ->
-  trace (map (subst_op d w) b) e1 = trace b e2 /\
-  srel d w (fst (exec_block (map (subst_op d w) b) e1)) (fst (exec_block b e2)).
+  trace (map (subst_op d w) b) e1 h = trace b e2 h /\
+  srel d w (fst (exec_block (map (subst_op d w) b) e1 h)) (fst (exec_block b e2 h)).
 Proof. apply block_subst_of_ops. apply Forall_forall. intros o _. apply subst_op_ok. Qed.
 
 (* the index constant used by a rebuilt memref.dim has the index value of the resolution *)
@@ -743,11 +816,11 @@ Proof.
   cbn [resolve_dim newdim_idx] in Hr, Hn.
   destruct (lookup (Sin ++ Sout) src) as [p1|] eqn:Hl.
   2:{ inversion Hr; subst. inversion Hn; subst. exact Hc. }
-  destruct p1 as [z|k a b|rs|s' i'|sz|s' sizes]; try discriminate.
+  destruct p1 as [z|k a b|rs|s' i'|sz|s' sizes|lm lix]; try discriminate.
   rewrite Hc in Hn.
   destruct (nth_error sizes (Z.to_nat iz)) as [[z|v]|]; try discriminate.
   destruct (lookup Sin v) as [pv|] eqn:Ev.
-  - destruct pv as [z|k a b|rs|s2 i2|sz|s2 sz]; try discriminate.
+  - destruct pv as [z|k a b|rs|s2 i2|sz|s2 sz|lm lix]; try discriminate.
     destruct (cst_of (Sin ++ Sout) i2) as [iz2|] eqn:Ei; [|discriminate].
     apply (IH _ _ _ _ _ _ _ _ Hr Ei Hn).
   - discriminate.
@@ -763,14 +836,14 @@ Proof.
   cbn [resolve_dim] in Hr.
   destruct (lookup (Sin ++ Sout) src) as [p1|] eqn:Hl.
   2:{ inversion Hr; subst. split; assumption. }
-  destruct p1 as [z|k a b|rs|s' i'|sz|s' sizes]; try discriminate.
+  destruct p1 as [z|k a b|rs|s' i'|sz|s' sizes|lm lix]; try discriminate.
   destruct (nth_error sizes (Z.to_nat iz)) as [[z|v]|]; try discriminate.
   destruct (lookup Sin v) as [pv|] eqn:Ev.
-  - destruct pv as [z|k a b|rs|s2 i2|sz|s2 sz]; try discriminate.
+  - destruct pv as [z|k a b|rs|s2 i2|sz|s2 sz|lm lix]; try discriminate.
     + destruct (first_const rs); discriminate.
     + destruct (cst_of (Sin ++ Sout) i2) as [iz2|]; [|discriminate].
       apply (IH _ _ _ _ _ _ P Hr); [eapply HP; exact Ev|exact HP].
-  - destruct (lookup Sout v) as [[z|k a b|rs|s2 i2|sz|s2 sz]|]; try discriminate.
+  - destruct (lookup Sout v) as [[z|k a b|rs|s2 i2|sz|s2 sz|lm lix]|]; try discriminate.
     destruct (first_const rs); discriminate.
 Qed.
 
@@ -783,15 +856,15 @@ Proof.
   induction fuel as [|fuel IH]; intros Sin Sout src iz v Hr; [discriminate|].
   cbn [resolve_dim] in Hr.
   destruct (lookup (Sin ++ Sout) src) as [p1|] eqn:Hl; [|discriminate].
-  destruct p1 as [z|k a b|rs|s' i'|sz|s' sizes]; try discriminate.
+  destruct p1 as [z|k a b|rs|s' i'|sz|s' sizes|lm lix]; try discriminate.
   destruct (nth_error sizes (Z.to_nat iz)) as [[z|u]|]; try discriminate.
   destruct (lookup Sin u) as [pv|] eqn:Ev.
-  - destruct pv as [z|k a b|rs|s2 i2|sz|s2 sz]; try discriminate.
+  - destruct pv as [z|k a b|rs|s2 i2|sz|s2 sz|lm lix]; try discriminate.
     + inversion Hr; subst. exists (PConst z). rewrite lookup_app, Ev. split; [reflexivity|left; eauto].
     + destruct (first_const rs); discriminate.
     + destruct (cst_of (Sin ++ Sout) i2) as [iz2|]; [|discriminate]. apply (IH _ _ _ _ _ Hr).
   - destruct (lookup Sout u) as [pv|] eqn:Ev2; [|discriminate].
-    destruct pv as [z|k a b|rs|s2 i2|sz|s2 sz]; try discriminate.
+    destruct pv as [z|k a b|rs|s2 i2|sz|s2 sz|lm lix]; try discriminate.
     + inversion Hr; subst. exists (PConst z). rewrite lookup_app, Ev. split; [exact Ev2|left; eauto].
     + destruct (first_const rs); discriminate.
     + inversion Hr; subst. exists (PDim s2 i2). rewrite lookup_app, Ev. split; [exact Ev2|right; eauto].
@@ -805,12 +878,12 @@ Proof.
 Qed.
 
 (* membership based (order insensitive) forms of the scope invariants *)
-Definition defs_okI (Sc : scope) (e : env) := forall v p, In (v, p) Sc -> e v = eval_pexpr e p.
+Definition defs_okI (Sc : scope) (e : env) := forall v p, In (v, p) Sc -> pure_p p = true -> e v = eval_pexpr e [] p.
 Definition closedI (D : list var) (Sc : scope) :=
   forall v p, In (v, p) Sc -> In v D /\ forall u, In u (uses_p p) -> In u D.
 
 Lemma defs_okI_defs_ok Sc e : defs_okI Sc e -> defs_ok Sc e.
-Proof. intros H v p Hl. apply H. apply lookup_In. exact Hl. Qed.
+Proof. intros H v p Hl Hp. apply H; [apply lookup_In; exact Hl|exact Hp]. Qed.
 Lemma defs_okI_scope_ok Sc e : defs_okI Sc e -> scope_ok Sc e.
 Proof. intros H. apply defs_ok_scope_ok, defs_okI_defs_ok. exact H. Qed.
 Lemma closedI_dom D Sc v : closedI D Sc -> In v (map fst Sc) -> In v D.
